@@ -361,6 +361,71 @@ const U7_HALF_SCALE: u8 = 1 << 6;
 /// If the user mashes dowm more notes than this, some information may be lost
 const HELD_DOWN_NOTE_BUFFER_LEN: usize = 32;
 
+/// Internal state of a receiver that has no public getter, for the verification harness (state identity only)
+#[cfg(feature = "verif-hooks")]
+#[derive(Debug, Clone, PartialEq)]
+pub struct VerifSnapshot {
+    pub parser: MidiByteStreamParser,
+    pub channel: u8,
+    pub rising_gate: bool,
+    pub falling_gate: bool,
+    pub allow_retrigger: bool,
+    /// 0 = last, 1 = high, 2 = low
+    pub note_priority: u8,
+    pub held_down_notes: Vec<u8, HELD_DOWN_NOTE_BUFFER_LEN>,
+}
+
+#[cfg(feature = "verif-hooks")]
+impl MonoMidiReceiver {
+    /// A copy of the state that has no public getter, read without clearing the edge flags
+    pub fn verif_snapshot(&self) -> VerifSnapshot {
+        VerifSnapshot {
+            parser: self.parser.clone(),
+            channel: self.channel,
+            rising_gate: self.rising_gate,
+            falling_gate: self.falling_gate,
+            allow_retrigger: self.retrigger_mode == RetriggerMode::AllowRetrigger,
+            note_priority: match self.note_priority {
+                NotePriority::Last => 0,
+                NotePriority::High => 1,
+                NotePriority::Low => 2,
+            },
+            held_down_notes: self.held_down_notes.clone(),
+        }
+    }
+
+    /// An independent copy of the receiver in exactly the same state
+    pub fn verif_clone(&self) -> Self {
+        Self {
+            parser: self.parser.clone(),
+            channel: self.channel,
+            note_num: self.note_num,
+            velocity: self.velocity,
+            pitch_bend: self.pitch_bend,
+            mod_wheel: self.mod_wheel,
+            volume: self.volume,
+            vcf_cutoff: self.vcf_cutoff,
+            vcf_resonance: self.vcf_resonance,
+            portamento_time: self.portamento_time,
+            portamento_enabled: self.portamento_enabled,
+            sustain_enabled: self.sustain_enabled,
+            gate: self.gate,
+            rising_gate: self.rising_gate,
+            falling_gate: self.falling_gate,
+            retrigger_mode: match self.retrigger_mode {
+                RetriggerMode::AllowRetrigger => RetriggerMode::AllowRetrigger,
+                RetriggerMode::NoRetrigger => RetriggerMode::NoRetrigger,
+            },
+            note_priority: match self.note_priority {
+                NotePriority::Last => NotePriority::Last,
+                NotePriority::High => NotePriority::High,
+                NotePriority::Low => NotePriority::Low,
+            },
+            held_down_notes: self.held_down_notes.clone(),
+        }
+    }
+}
+
 #[cfg(test)]
 mod tests {
     use super::*;
